@@ -65,3 +65,10 @@ package sharding
 //@         && fmArg(ba.backends[index].Backend) == sbSet(digests.digests, sbAdds(digests.digests))
 //@   ensures [failure-reported] (result == nil) <==> (fmErr(ba.backends[index].Backend) == nil)
 //@   ensures [answer-kept-in-its-own-slot] result == nil ==> base(missingOut.digests) == fmRes(ba.backends[index].Backend)
+
+// Reads of a part of a composite object go to the shard of the parent.
+//@ func (*shardingBlobAccess).GetFromComposite
+//@   requires sbaWF(ba)
+//@   ensures result != nil
+//@   ensures [the-parents-shard] baDigest(ba.backends[selShard(ba.shardSelector, hashOf(parentDigest.value))].Backend) == parentDigest.value
+//@         && baChild(ba.backends[selShard(ba.shardSelector, hashOf(parentDigest.value))].Backend) == childDigest.value
